@@ -7,7 +7,7 @@ import vlib
 from vlib import coq_str, coq_list
 
 PROP = "C19"
-IMPORTS = ["Base.Str", "Model.Archive", "Proofs.Archive"]
+IMPORTS = ["Base.Str", "Model.Archive", "Proofs.Archive", "Proofs.ArchiveCompose"]
 WORK = os.path.join(vlib.CACHE, "c19-work")
 PKG_A = "crate_a 0.1.0 (path+file:///home/fakeuser/tests-workspace/crate-a)"
 PKG_B = "crate_b 0.1.0 (path+file:///home/fakeuser/tests-workspace/crate-b)"
@@ -40,6 +40,15 @@ Definition enc_x (x : xresult) : N * (N * list (list (list N) * (N * list N))) :
   | XOk d => (0, (0, f d))
   | XRejected c d => (1, (c, f d))
   | XIoError d => (2, (0, f d))
+  end.
+(* the archiver's own entries: the UTF-8 path bytes of each, and what the repaired machine makes of
+   them in an empty destination *)
+Definition enc_rt (b : build) (thru : bool) (dest : rpath)
+  : N * (list (list N) * (N * (N * list (list (list N) * (N * list N))))) :=
+  match archive b with
+  | None => (0, ([], (0, (0, []))))
+  | Some es => (1, (map (fun e : entry => utf8_path (fst e)) es,
+                    enc_x (extract_to false thru false dest [] (map tentry_of es))))
   end.
 Definition enc_w (s : wstate * files) (dest : rpath) : N * N :=
   (b2n (committed (fst s)), match snd s dest with None => 0 | Some [] => 1 | Some (x :: _) => x end).
@@ -247,7 +256,7 @@ TAR_END = b"\0" * 1024
 
 # ----------------------------------------------------------------------------- synthetic builds
 
-NAMES = ["a", "b", "c", "d1", "é", "x y", "lib.so", "deps", "out", "z-9"]
+NAMES = ["a", "b", "c", "d1", "é", "x y", "lib.so", "deps", "out", "z-9", "ß∂", "日本.rs", "\U0001d11e-clef"]
 
 
 def gen_tree_on_disk(r, root, depth, budget, siblings_root):
@@ -360,7 +369,7 @@ def gen_build(r, case_dir, broken_links=False):
 def include_toml(includes):
     rows = []
     for i in includes:
-        row = f'{{ path = {json.dumps(i["path"])}, relative-to = "target"'
+        row = f'{{ path = {json.dumps(i["path"], ensure_ascii=False)}, relative-to = "target"'
         if i["depth"] is not None:
             row += f', depth = {json.dumps(i["depth"])}'
         if i["on_missing"] is not None:
@@ -369,8 +378,9 @@ def include_toml(includes):
     return "[profile.default.archive]\ninclude = [\n  " + ",\n  ".join(rows) + "\n]\n"
 
 
-def coq_build(case, meta_bin, meta_cargo, stdlibs=()):
-    """the model's `build` for a generated case, read back from the directory"""
+def coq_build(case, meta_bin, meta_cargo, stdlibs=(), roundtrip=None):
+    """the model's `build` for a generated case, read back from the directory; with roundtrip =
+    (thru, dest): the model's own entries, their UTF-8 path bytes and their extraction into dest"""
     tgt = case["target_dir"]
     sm = case["summary"]["rust-build-meta"]
 
@@ -399,12 +409,16 @@ def coq_build(case, meta_bin, meta_cargo, stdlibs=()):
         om = {"ignore": "OnIgnore", "warn": "OnWarn", "error": "OnError", None: "OnWarn"}[i["on_missing"]]
         incs.append(f"{{| inc_path := include_rel {coq_str(i['path'])}; inc_depth := {cq_depth(d)}; "
                     f"inc_missing := {om}; inc_src := {src(comps)} |}}")
-    return (f"enc_archive (archive {{| b_meta_binaries := {cq_bytes(token(meta_bin))}; "
-            f"b_meta_cargo := {cq_bytes(token(meta_cargo))}; b_test_bins := {coq_list(bins)}; "
-            f"b_non_test_bins := {coq_list(nontest)}; b_out_dirs := {coq_list(outs)}; "
-            f"b_linked := {coq_list(linked)}; b_includes := {coq_list(incs)}; b_stdlibs := "
-            + coq_list([f"({cq_path(rel.split('/'))}, {cq_opt(scan(path), cq_tree)})" for rel, path in stdlibs])
-            + " |})")
+    rec = (f"{{| b_meta_binaries := {cq_bytes(token(meta_bin))}; "
+           f"b_meta_cargo := {cq_bytes(token(meta_cargo))}; b_test_bins := {coq_list(bins)}; "
+           f"b_non_test_bins := {coq_list(nontest)}; b_out_dirs := {coq_list(outs)}; "
+           f"b_linked := {coq_list(linked)}; b_includes := {coq_list(incs)}; b_stdlibs := "
+           + coq_list([f"({cq_path(rel.split('/'))}, {cq_opt(scan(path), cq_tree)})" for rel, path in stdlibs])
+           + " |}")
+    if roundtrip is not None:
+        thru, dest = roundtrip
+        return f"enc_rt {rec} {vlib.coq_bool(thru)} {cq_path([c for c in dest.split('/') if c])}"
+    return f"enc_archive (archive {rec})"
 
 
 def oracle_expected_files(case, stdlibs=()):
@@ -510,7 +524,7 @@ def model_entries_to_map(val):
     return {"/".join(vlib.decode_str(c) for c in comps): (k, list(data)) for comps, (k, data) in es}
 
 
-def section_archive(chk, r, binary, n_cases, distinct, forced=()):
+def section_archive(chk, r, binary, n_cases, distinct, forced=(), flav=None):
     """corr:archive + oracle:roundtrip on synthetic builds through archive_to_file/extract_archive"""
     cargo_meta = open(os.path.join(vlib.REPO, "fixtures", "tests-workspace-metadata.json"), "rb").read()
     cases, hcases = [], []
@@ -539,7 +553,12 @@ def section_archive(chk, r, binary, n_cases, distinct, forced=()):
             meta_bin = bytes.fromhex(lt["entries"][0]["data"])
         case["meta_bin"] = meta_bin
         exprs.append(coq_build(case, meta_bin, cargo_meta))
+    thru = not (flav or {}).get("f23", True)
     model = vlib.coq_eval("c19a", IMPORTS, exprs, PRELUDE)
+    model_rt = vlib.coq_eval("c19r", IMPORTS,
+                             [coq_build(case, case["meta_bin"], cargo_meta,
+                                        roundtrip=(thru, os.path.realpath(os.path.join(case["dir"], "dest"))))
+                              for case in cases], PRELUDE)
     for ci, case in enumerate(cases):
         ar, lt, ex = res[3 * ci: 3 * ci + 3]
         mm = model_entries_to_map(model[ci])
@@ -614,6 +633,39 @@ def section_archive(chk, r, binary, n_cases, distinct, forced=()):
                         why = f"target dir remap is {ex.get('target_dir_remap')}"
                 if why:
                     problem = ("oracle", why)
+            # the model end to end: its entries' UTF-8 path bytes are the bytes in the tar headers, and
+            # its extraction machine run on its own entries yields the tree nextest extracted
+            if problem is None and mm is not None and ex.get("ok"):
+                rt_ok, (rt_paths, (xs, (xcode, xnodes))) = model_rt[ci]
+                real_paths = [bytes.fromhex(e["path_hex"]).rstrip(b"/") for e in lt["entries"]]
+                if not rt_ok or [bytes(x) for x in rt_paths] != real_paths:
+                    k = next((i for i, (a, b) in enumerate(zip([bytes(x) for x in rt_paths], real_paths)) if a != b), None)
+                    problem = ("corr", f"path bytes in the tar headers differ from the model's UTF-8 encoding "
+                                       f"(first difference at entry {k})")
+                elif xs != 0:
+                    problem = ("corr", f"nextest extracted its own archive, the model's extraction of the model's "
+                                       f"entries ends with status {xs} code {xcode}")
+                else:
+                    dest = os.path.realpath(os.path.join(case["dir"], "dest"))
+                    mfs = {}
+                    for comps, (k, data) in reversed(xnodes):
+                        mfs["/" + "/".join(vlib.decode_str(c) for c in comps)] = (k, list(data))
+                    real = {}
+                    for rel, v in tree_listing(dest).items():
+                        real[os.path.join(dest, rel)] = (0, token(v[1])) if v[0] == "f" else (1, []) if v[0] == "d" else (9, [])
+                    if thru:
+                        real = {k: v for k, v in real.items() if v[0] != 1}
+                        mfs = {k: v for k, v in mfs.items() if v[0] != 1}
+                    if mfs != real:
+                        only_i = sorted(set(real) - set(mfs))[:3]
+                        only_m = sorted(set(mfs) - set(real))[:3]
+                        diff = [q for q in real if q in mfs and real[q] != mfs[q]][:3]
+                        problem = ("corr", f"extracted tree differs from the model's extraction of its own entries: "
+                                           f"only on disk {only_i}, only in model {only_m}, different {diff}")
+                    else:
+                        chk.count("archive_model_roundtrips")
+                        if any(any(ord(ch) > 127 for ch in q) for q in mfs):
+                            chk.count("archive_model_roundtrips_non_ascii")
             nontriv = len(case["includes"]) >= 1 and len(im) >= 5
             if nontriv:
                 distinct.add(sha(json.dumps([sorted(im), case["includes"]], sort_keys=True).encode()))
@@ -872,18 +924,115 @@ def benign_entries(r, prefix=b"target/ok"):
     return out
 
 
+PRESEED_KINDS = ["pre-link-up", "pre-link-abs", "pre-link-chain", "pre-target-link", "pre-final-link",
+                 "pre-deep-link", "pre-benign", "pre-no-overwrite", "pre-link-up", "pre-benign", "pre-benign"]
+
+
+def gen_preseed(r, sb, kind):
+    """a destination that is not empty (what --extract-overwrite allows) + an archive of ORDINARY
+    entries whose paths go through what is there. Returns (preseed, specs, overwrite); preseed =
+    [(op, path relative to dest, argument)] with op in dir | file | link."""
+    outside = os.path.join(sb, "outside")
+    E = spec_entry
+    pre = benign_entries(r)
+    post = benign_entries(r, b"target/after")
+    ow = True
+    evil = r.choice([b"evil", b"sub/evil", b"dest/evil", b"outside/evil", b"target/evil", b"\xc3\xa9/evil"])
+    if kind == "pre-link-up":
+        tgt = r.choice(["..", "../..", ".", "../../outside", "../", "./.."])
+        seed = [("dir", "target", None), ("link", "target/l", tgt)]
+        specs = [E(b"target/l/" + evil, data=b"EVIL")]
+    elif kind == "pre-link-abs":
+        tgt = r.choice([outside, "/", os.path.dirname(sb), os.path.join(sb, "dest")])
+        seed = [("dir", "target", None), ("link", "target/l", tgt)]
+        specs = [r.choice([E(b"target/l/" + evil, data=b"EVIL"), E(b"target/l", kind="dir", mode=0o777),
+                           E(b"target/l", kind="dir", mode=0o700)])]
+    elif kind == "pre-link-chain":
+        last = r.choice(["../..", "..", outside, "../../outside", "c"])
+        seed = [("dir", "target", None), ("link", "target/a", "b"), ("link", "target/b", last),
+                ("link", "target/c", r.choice(["a", "..", "nowhere"]))]
+        specs = [E(b"target/" + r.choice([b"a", b"b", b"c"]) + b"/" + evil, data=b"EVIL")]
+    elif kind == "pre-target-link":
+        tgt = r.choice(["sub", "sub", ".", "../outside", outside, "nowhere", "sub/deeper"])
+        seed = [("dir", "sub", None), ("link", "target", tgt)]
+        specs = [E(b"target/" + evil, data=b"EVIL")]
+        ow = r.random() < 0.7
+    elif kind == "pre-final-link":
+        tgt = r.choice([os.path.join(outside, "canary"), "../canary-in-dest", outside, "..", "nowhere"])
+        seed = [("dir", "target", None), ("link", "target/s", tgt)]
+        specs = [r.choice([E(b"target/s", data=b"REPLACED"), E(b"target/s", kind="dir", mode=0o777)])]
+    elif kind == "pre-deep-link":
+        seed = [("dir", "target", None), ("dir", "target/d1", None), ("dir", "target/d1/d2", None),
+                ("file", "target/d1/keep", b"KEEP"),
+                ("link", "target/d1/d2/l", r.choice(["../../..", "../../../..", "../..", os.path.join(sb, "outside")]))]
+        specs = [E(b"target/d1/new", data=b"NEW"), E(b"target/d1/d2/l/" + evil, data=b"EVIL")]
+    elif kind == "pre-benign":
+        seed = [("dir", "target", None), ("dir", "target/ok0", None), ("file", "target/ok0/f1", b"OLD"),
+                ("file", "target/plain", b"PLAIN"), ("dir", "target/dd", None), ("dir", "target/dd/inner", None)]
+        if r.random() < 0.4:
+            seed.append(("link", "target/elsewhere", r.choice(["..", outside, "plain"])))
+        specs = [r.choice([E(b"target/ok0/f1", data=b"NEW1"), E(b"target/dd", kind="dir", mode=0o755),
+                           E(b"target/dd/inner/x", data=b"X"), E(b"target/dd", data=b"FILE-OVER-DIR"),
+                           E(b"target/plain", kind="dir", mode=0o755), E(b"target/plain/below", data=b"B"),
+                           E(b"target/plain", data=b"PLAIN2"), E(b"target/new/deep/er", data=b"D"),
+                           E(b"target/ok0", data=b"FILE-OVER-IMPLICIT-DIR"), E(b"target", kind="dir", mode=0o755)])
+                 for _ in range(r.randint(1, 3))]
+    else:   # pre-no-overwrite
+        seed = [r.choice([("dir", "target", None), ("file", "target", b"A-FILE"), ("link", "target", "sub"),
+                          ("link", "target", outside), ("link", "target", "nowhere"), ("link", "target", "/")]),
+                ("dir", "sub", None)]
+        specs = [E(b"target/x", data=b"X")]
+        ow = False
+    return seed, pre + specs + post, ow
+
+
+def apply_preseed(dest, preseed):
+    for op, rel, arg in preseed:
+        p = os.path.join(dest, rel)
+        if op == "dir":
+            os.makedirs(p, exist_ok=True)
+        elif op == "file":
+            open(p, "wb").write(arg if isinstance(arg, bytes) else bytes.fromhex(arg))
+        else:
+            os.symlink(arg, p)
+
+
+def coq_fs(sb):
+    """the model's initial file system: every node of the sandbox (and the directories above it)"""
+    rows = []
+    top = os.path.realpath(sb)
+    for dirpath, dirs, files in os.walk(top, followlinks=False):
+        for n in dirs + files:
+            p = os.path.join(dirpath, n)
+            st = os.lstat(p)
+            comps = cq_path([c for c in p.split("/") if c])
+            if stat.S_ISLNK(st.st_mode):
+                rows.append(f"({comps}, NLink (components {coq_str(os.readlink(p))}))")
+            elif stat.S_ISDIR(st.st_mode):
+                rows.append(f"({comps}, NDir)")
+            elif stat.S_ISREG(st.st_mode):
+                rows.append(f"({comps}, NFile {cq_bytes(token(open(p, 'rb').read()))})")
+    parts = [c for c in top.split("/") if c]
+    for i in range(len(parts) + 1):
+        rows.append(f"({cq_path(parts[:i])}, NDir)")
+    return coq_list(rows)
+
+
 def gen_hostile(r, sb, meta):
     """one hostile (or benign) archive for the sandbox `sb` (contains dest/, outside/, canary).
-    Returns dict(kind, blob, specs | None (model not applicable), has_link)."""
+    Returns dict(kind, blob, specs | None (model not applicable), has_link, preseed, overwrite)."""
     outside = os.path.join(sb, "outside").encode()
     canary = os.path.join(sb, "outside", "canary").encode()
-    kind = r.choice(["dotdot", "absolute", "no-target", "non-utf8", "bad-cksum", "symlink-chain", "symlink-chain",
+    kind = r.choice(PRESEED_KINDS + ["dotdot", "absolute", "no-target", "non-utf8", "bad-cksum", "symlink-chain", "symlink-chain",
                      "symlink-dir-chmod", "symlink-replace", "hardlink", "device", "truncated", "corrupt",
                      "huge-size", "gnu-long", "pax-path", "benign", "magic", "trailing-garbage", "dir-file-clash"])
     pre = benign_entries(r)
     post = benign_entries(r, b"target/after")
     specs, raw_tar, has_link = None, None, False
-    if kind == "dotdot":
+    preseed, overwrite = [], r.random() < 0.3
+    if kind.startswith("pre-"):
+        preseed, specs, overwrite = gen_preseed(r, sb, kind)
+    elif kind == "dotdot":
         bad = r.choice([b"target/../evil", b"target/a/../../evil", b"../evil", b"target/..", b"target/a/../../../outside/evil"])
         specs = pre + [spec_entry(bad, data=b"EVIL")] + post
     elif kind == "absolute":
@@ -953,10 +1102,12 @@ def gen_hostile(r, sb, meta):
             blob = blob + r.choice([b"garbage", blob, b"\x28\xb5\x2f\xfd\x00"])
     else:
         blob = zstd_store(raw_tar)
-    return dict(kind=kind, blob=blob, specs=specs, has_link=has_link, with_meta=with_meta)
+    return dict(kind=kind, blob=blob, specs=specs, has_link=has_link, with_meta=with_meta,
+                preseed=preseed, overwrite=overwrite)
 
 
-REJECT = {"non-utf8", "no-target-prefix", "invalid-component", "link-entry", "invalid-checksum", "checksum-read", "io"}
+REJECT = {"non-utf8", "no-target-prefix", "invalid-component", "link-entry", "invalid-checksum", "checksum-read", "io",
+          "destination-exists"}
 
 
 def impl_class(ex):
@@ -996,42 +1147,68 @@ def reference_metadata(binary):
 
 
 def probe_flavour(binary):
-    """does the tree under test reject link entries (the F19 repair)?"""
+    """which repairs does the tree under test have? f19: link entries are rejected; f23: an entry is
+    not unpacked through or onto a link that already exists in the destination"""
     sb = make_sandbox("probe")
     a = os.path.join(sb, "p.tar.zst")
     open(a, "wb").write(zstd_store(tar_entry(b"target/l", typ=b"2", link=b"x") + TAR_END))
     ex = harness(binary, [dict(op="extract", archive=a, dest=os.path.join(sb, "dest"))])[0]
     rm(sb)
-    return ex.get("err") == "link-entry"
+    sb = make_sandbox("probe")
+    dest = os.path.join(sb, "dest")
+    apply_preseed(dest, [("dir", "target", None), ("link", "target/a", "..")])
+    open(a, "wb").write(zstd_store(tar_entry(b"target/a/probe", b"P") + TAR_END))
+    ex2 = harness(binary, [dict(op="extract", archive=a, dest=dest, overwrite=True)])[0]
+    f23 = not os.path.lexists(os.path.join(dest, "probe"))     # whatever the reported outcome
+    rm(sb)
+    return dict(f19=ex.get("err") == "link-entry", f23=f23)
 
 
-def section_hostile(chk, r, binary, n, fixed, nextest=None, n_cli=0, corpus_cases=(), sandbox_names=None):
+def listed_finding(fid):
+    """is the finding still listed as open in known_findings.json? (a `fixed:` entry suppresses nothing)"""
+    return any(f.get("property") == PROP and f.get("id") == fid
+               for f in vlib.known_findings().get("findings", []))
+
+
+def section_hostile(chk, r, binary, n, flav, nextest=None, n_cli=0, corpus_cases=(), sandbox_names=None):
     meta = reference_metadata(binary)
+    fixed, fixed23 = flav["f19"], flav["f23"]
     items, hcases = [], []
     for hi in range(n):
         sb = make_sandbox(sandbox_names[hi] if sandbox_names else f"host-{hi}")
         seed = r.randrange(2 ** 32)
         h = corpus_cases[hi] if hi < len(corpus_cases) else None
+        out_s = os.path.join(sb, "outside")
         if h is None:
             h = gen_hostile(random.Random(seed), sb, meta)
         elif "blob_hex" in h:
             h = dict(kind=h.get("kind", "replay"), blob=bytes.fromhex(h["blob_hex"]), specs=None,
-                     has_link=h.get("has_link", False), with_meta=False)
+                     has_link=h.get("has_link", False), with_meta=False,
+                     preseed=[(op, rel, (arg or "").replace("@OUTSIDE@", out_s) if op == "link" else arg)
+                              for op, rel, arg in h.get("preseed", [])],
+                     overwrite=h.get("overwrite", False))
         else:
             h = dict(h)
-            h["specs"] = [spec_entry(bytes.fromhex(s["raw"]).replace(b"@OUTSIDE@", os.path.join(sb, "outside").encode()),
+            h["specs"] = [spec_entry(bytes.fromhex(s["raw"]).replace(b"@OUTSIDE@", out_s.encode()),
                                      s["kind"], bytes.fromhex(s["data"]),
-                                     bytes.fromhex(s["link"]).replace(b"@OUTSIDE@", os.path.join(sb, "outside").encode()),
+                                     bytes.fromhex(s["link"]).replace(b"@OUTSIDE@", out_s.encode()),
                                      s["cksum_ok"], s["mode"]) for s in h["specs"]]
             h["blob"] = zstd_store(b"".join(spec_to_tar(e) for e in h["specs"]) + TAR_END)
             h["with_meta"] = False
+            h["preseed"] = [(op, rel, (arg or "").replace("@OUTSIDE@", out_s) if op == "link" else arg)
+                            for op, rel, arg in h.get("preseed", [])]
+            h["overwrite"] = h.get("overwrite", False)
         h.update(sb=sb, seed=seed, archive=os.path.join(sb, "hostile.tar.zst"))
         open(h["archive"], "wb").write(h["blob"])
+        apply_preseed(os.path.join(sb, "dest"), h["preseed"])
+        h["pre_link"] = any(op == "link" for op, _, _ in h["preseed"])
+        h["fs0"] = coq_fs(sb) if h["specs"] is not None else None
         h["before"] = fs_snapshot(sb, skip=(os.path.join(sb, "dest", "target"),))
         h["cli"] = nextest is not None and len(corpus_cases) <= hi < len(corpus_cases) + n_cli
         items.append(h)
         if not h["cli"]:
-            hcases.append(dict(op="extract", archive=h["archive"], dest=os.path.join(sb, "dest")))
+            hcases.append(dict(op="extract", archive=h["archive"], dest=os.path.join(sb, "dest"),
+                               overwrite=h["overwrite"]))
     res = iter(harness(binary, hcases))
     for h in items:
         if h["cli"]:
@@ -1040,17 +1217,19 @@ def section_hostile(chk, r, binary, n, fixed, nextest=None, n_cli=0, corpus_case
                 if k.startswith("NEXTEST") or k.startswith("CARGO_"):
                     env.pop(k)
             p = subprocess.run([nextest, "nextest", "list", "--archive-file", h["archive"], "--extract-to",
-                                os.path.join(h["sb"], "dest")], cwd=h["sb"], env=env, capture_output=True,
-                               timeout=120)
+                                os.path.join(h["sb"], "dest")] + (["--extract-overwrite"] if h["overwrite"] else []),
+                               cwd=h["sb"], env=env, capture_output=True, timeout=120)
             h["rc"] = p.returncode
             h["ex"] = dict(cli=True, rc=p.returncode, stderr=p.stderr.decode(errors="replace")[-400:])
         else:
             h["ex"] = next(res)
     exprs, idx = [], []
     for hi, h in enumerate(items):
-        if h["specs"] is not None and not h["cli"] and not (h["kind"] == "hardlink" and not fixed):
+        if h["specs"] is not None and not h["cli"] and not (h["kind"] == "hardlink" and not fixed) \
+                and not (h["preseed"] and not fixed23):
             dest = [c for c in os.path.realpath(os.path.join(h["sb"], "dest")).split("/") if c]
-            exprs.append(f"enc_x (extract {vlib.coq_bool(not fixed)} {cq_path(dest)} [] "
+            exprs.append(f"enc_x (extract_to {vlib.coq_bool(not fixed)} {vlib.coq_bool(not fixed23)} "
+                         f"{vlib.coq_bool(h['overwrite'])} {cq_path(dest)} {h['fs0']} "
                          f"{coq_list([spec_to_coq(e) for e in h['specs']])})")
             idx.append(hi)
     model = dict(zip(idx, vlib.coq_eval("c19h", IMPORTS, exprs, PRELUDE)))
@@ -1059,8 +1238,14 @@ def section_hostile(chk, r, binary, n, fixed, nextest=None, n_cli=0, corpus_case
         sb = h["sb"]
         chk.count("hostile_cases")
         chk.count("hostile_kind=" + h["kind"])
+        if h["preseed"]:
+            chk.count("hostile_preseeded")
+            chk.count("hostile_preseeded_links", int(h["pre_link"]))
+            chk.count(f"hostile_preseeded_overwrite={int(h['overwrite'])}")
         after = fs_snapshot(sb, skip=(os.path.join(sb, "dest", "target"),))
         desc = dict(kind=h["kind"], gen_seed=h["seed"], with_meta=h.get("with_meta"), sandbox=os.path.basename(sb),
+                    overwrite=h["overwrite"],
+                    preseed=[[op, rel, (arg.hex() if isinstance(arg, bytes) else arg)] for op, rel, arg in h["preseed"]],
                     entries=None if h["specs"] is None else
                     [dict(raw=e["raw"].decode("utf-8", "backslashreplace"), kind=e["kind"],
                           link=e["link"].decode("utf-8", "backslashreplace"), size=len(e["data"]),
@@ -1078,7 +1263,7 @@ def section_hostile(chk, r, binary, n, fixed, nextest=None, n_cli=0, corpus_case
             why = f"cargo-nextest died with status {h['rc']} on a malformed archive"
         elif "panic" in h["ex"]:
             why = f"extract_archive panicked: {h['ex']['panic'][:200]}"
-        if why is None and h["specs"] is not None and not h["cli"]:
+        if why is None and h["specs"] is not None and not h["cli"] and not h["preseed"]:
             bad_i = next((i for i, e in enumerate(h["specs"]) if not py_path_ok(e["raw"]) or not e["cksum_ok"]), None)
             if bad_i is not None and impl_class(h["ex"]) != 1 \
                     and not any(e["kind"] in ("symlink", "hardlink") for e in h["specs"][:bad_i]):
@@ -1086,12 +1271,16 @@ def section_hostile(chk, r, binary, n, fixed, nextest=None, n_cli=0, corpus_case
                 why = (f"entry {bad_i} ({e['raw'].decode('utf-8', 'backslashreplace')!r}, checksum "
                        f"{'ok' if e['cksum_ok'] else 'bad'}) has a non-normal path or a bad checksum and was not rejected")
         if why:
-            if not fixed and h["has_link"]:
+            if not fixed and h["has_link"] and listed_finding("F19"):
                 chk.known_finding("F19 an archive with a symbolic link entry followed by an entry through it "
                                   "writes or changes permissions outside <dest>/target "
                                   "(unarchiver accepts link entries)")
                 chk.count("hostile_known_F19")
             else:
+                if h["pre_link"] and not h["has_link"]:
+                    why += (" [the destination already contained a symbolic link below <dest> and the archive "
+                            "holds ordinary entries only: F23, repaired by `fix: refuse to extract an archive "
+                            "entry through or onto a symbolic link in the destination`]")
                 chk.violation("counterexample", "oracle:confined", dict(input=desc, clause=why, impl=h["ex"]))
                 ok = False
                 break
@@ -1107,8 +1296,9 @@ def section_hostile(chk, r, binary, n, fixed, nextest=None, n_cli=0, corpus_case
             else:
                 dest = os.path.realpath(os.path.join(sb, "dest"))
                 real = {os.path.join(dest, k): v for k, v in tree_listing(dest).items()}
-                real.pop(os.path.join(dest, "canary-in-dest"), None)
                 for p, (k, data) in mfs.items():
+                    if p == "/" or not p.startswith(os.path.realpath(sb) + "/"):
+                        continue          # the directories above the sandbox
                     try:
                         st = os.lstat(p)
                     except OSError:
@@ -1117,7 +1307,7 @@ def section_hostile(chk, r, binary, n, fixed, nextest=None, n_cli=0, corpus_case
                     if k == 0 and not (stat.S_ISREG(st.st_mode) and token(open(p, "rb").read()) == data):
                         bad = f"{p}: model has a file with content {data}"
                         break
-                    if k == 1 and not (stat.S_ISDIR(st.st_mode) or stat.S_ISLNK(st.st_mode)):
+                    if k == 1 and not (stat.S_ISDIR(st.st_mode) or (stat.S_ISLNK(st.st_mode) and not fixed23)):
                         bad = f"{p}: model has a directory"
                         break
                     if k == 2 and not stat.S_ISLNK(st.st_mode):
@@ -1125,7 +1315,7 @@ def section_hostile(chk, r, binary, n, fixed, nextest=None, n_cli=0, corpus_case
                         break
                 if not bad:
                     for p, v in real.items():
-                        if v[0] != "d" and p not in mfs:
+                        if (v[0] != "d" or fixed23) and p not in mfs:
                             bad = f"the implementation wrote {p}, the model does not"
                             break
             if bad:
@@ -1135,8 +1325,14 @@ def section_hostile(chk, r, binary, n, fixed, nextest=None, n_cli=0, corpus_case
                 ok = False
                 break
             chk.count(f"hostile_model_status={status}")
+            if h["preseed"]:
+                chk.count(f"hostile_preseeded_model_status={status}")
         if hi == 2:
             chk.sample(dict(hostile_archive=dict(kind=h["kind"], entries=desc["entries"], result=h["ex"])))
+        if h["pre_link"] and "pre_sampled" not in chk.counts:
+            chk.count("pre_sampled")
+            chk.sample(dict(preseeded_destination=dict(kind=h["kind"], preseed=desc["preseed"], overwrite=h["overwrite"],
+                                                       entries=desc["entries"], result=h["ex"])))
     for h in items:
         rm(h["sb"])
     return ok
@@ -1641,8 +1837,9 @@ ASSUMPTIONS = [
     "atomicwrites / rename(2): a successful rename replaces the destination atomically; only process "
     "crashes (SIGKILL) and failing system calls are exercised, not power loss",
     "file contents are opaque to the model (long contents are represented by a digest)",
-    "the destination directory is canonical and contains no links below target/ before extraction "
-    "(nextest refuses an existing target/ unless --extract-overwrite is given)",
+    "the destination directory path given to the extraction machine is canonical (Unarchiver::extract "
+    "canonicalises it); what the destination contains is arbitrary (files, directories, links anywhere)",
+    "changes of permissions by directory entries are not modelled (they are observed by the snapshot oracle)",
 ]
 
 TRUSTED = ["Coq 8.16.1 kernel + vm_compute",
@@ -1672,8 +1869,9 @@ def run(tier, seed):
     r = vlib.rng_for(seed, PROP)
     th = tier == "thorough"
     distinct = set()
-    fixed = probe_flavour(binary)
-    chk.count("tree_has_F19_repair", int(fixed))
+    flav = probe_flavour(binary)
+    chk.count("tree_has_F19_repair", int(flav["f19"]))
+    chk.count("tree_has_F23_repair", int(flav["f23"]))
     cp = corpus()
     t = time.time()
     timing = {}
@@ -1690,8 +1888,9 @@ def run(tier, seed):
     timed("include-parse", lambda: section_include(chk, r, binary, 300 if th else 60))
     timed("path-mapper", lambda: section_mapper(chk, r, binary, 200 if th else 40))
     forced = [(c["gen_seed"], c.get("broken_links", False), c.get("includes")) for c in cp.get("archive", [])]
-    timed("archive", lambda: section_archive(chk, r, binary, (1000 if th else 90) + len(forced), distinct, forced))
-    timed("hostile", lambda: section_hostile(chk, r, binary, (2000 if th else 160) + len(cp.get("hostile", [])), fixed,
+    timed("archive", lambda: section_archive(chk, r, binary, (1000 if th else 90) + len(forced), distinct, forced,
+                                             flav))
+    timed("hostile", lambda: section_hostile(chk, r, binary, (2000 if th else 160) + len(cp.get("hostile", [])), flav,
                                              rig.nextest, 40 if th else 5, cp.get("hostile", [])))
     timed("crash", lambda: section_crash(chk, r, binary, 500 if th else 40, 100 if th else 10, rig.nextest,
                                          30 if th else 4))
@@ -1729,6 +1928,9 @@ def replay(path, seed):
     elif name in ("oracle:confined", "corr:extract") and "archive_hex" in inp and not inp["archive_hex"].endswith("..."):
         ok = section_hostile(chk, r, binary, 1, probe_flavour(binary), None, 0,
                              [dict(kind=inp.get("kind"), blob_hex=inp["archive_hex"],
+                                   preseed=[(op, rel, bytes.fromhex(arg) if op == "file" else arg)
+                                            for op, rel, arg in inp.get("preseed", [])],
+                                   overwrite=inp.get("overwrite", False),
                                    has_link=any(e["kind"] in ("symlink", "hardlink") for e in (inp.get("entries") or [])))],
                              sandbox_names=[inp.get("sandbox", "host-0")])
     elif name == "corr:path-checks":
